@@ -65,6 +65,7 @@ def main_for(pid, tier="quick", seed=0):
     if missing:
         raise tlc.MachineryError("pool strategies exported but not registered in harness/zoo.py: %s" % missing)
     ENTRIES.update({e.name: e for e in zoo.entries()})
+    ENTRIES.update({e.name: e for e in zoo.wrapper_entries()})
     chk.rule = ("scenarios = initial states of PoolGen (pool size 2..%d, every labeled set, candidates None / index "
                 "subsets of the unlabeled samples / arbitrary index sets for sample-wise scorers / feature rows, batch "
                 "sizes {1,2,#cand,#cand+1}, 5 geometry classes incl. duplicates and identical points, label patterns) "
@@ -125,6 +126,7 @@ def replay(rep):
 
     import_repo()
     ENTRIES.update({e.name: e for e in zoo.entries()})
+    ENTRIES.update({e.name: e for e in zoo.wrapper_entries()})
     c = rep["payload"]["trace"]["concrete"]
     entry = ENTRIES[c["strategy"]]
     tr = pc.record_query(entry, c["scenario"], c["seed"], c["return_utilities"], c["variant"])
